@@ -21,9 +21,9 @@ CONSTANTS
   Variants,     \* payload variants: the same request may get different answers
   MaxLen,       \* longest recorded history
   MaxForeign,   \* rows of other runs in the database
-  ForeignRows,  \* the rows other runs may contribute
+  ForeignRows,  \* the rows other runs may contribute: [g, st, req, rsp]
+  Groups,       \* g -> [run, ecu, props]: what the database knows about the run a row belongs to
   Selectors,    \* selections the virtual ECU may be started with
-  TargetEcu, TargetProps,
   Export,       \* print every finished behaviour (spec -> code extraction)
   Dev_S18_ResetOnSilentRow,
   Dev_S19_ClientTracksSessionRead,
@@ -32,7 +32,7 @@ CONSTANTS
 VARIABLES
   phase,   \* "rec" | "rep" | "done"
   cState,  \* client tracker (ECU.state)
-  rows,    \* scan_result, position = id
+  rows,    \* scan_result, position = id; light rows [g, st, req, rsp] (see Full)
   tgt,     \* ids of the rows of the recorded run, in order
   sel,     \* selection of the virtual ECU
   srv,     \* replaying server [st, cur]  (UDSServer.state, DBUDSServer.last_response)
@@ -76,7 +76,12 @@ Init ==
   /\ phase = "rec" /\ cState = Default /\ rows = <<>> /\ tgt = <<>>
   /\ sel = NoSel /\ srv = Fresh /\ obs = <<>> /\ vd = <<"ok", "checked", 0>>
 
-NForeign == Cardinality({i \in 1..Len(rows) : rows[i].run # "tgt"})
+(* the row as DbReplayRules sees it: effect of the reply and the run's ecu / properties joined in *)
+Full(r)  == [run |-> Groups[r.g].run, st |-> r.st, req |-> r.req, rsp |-> r.rsp, eff |-> EffAbs(r.req, r.rsp),
+             ecu |-> Groups[r.g].ecu, props |-> Groups[r.g].props]
+FullRows == [i \in 1..Len(rows) |-> Full(rows[i])]
+
+NForeign == Cardinality({i \in 1..Len(rows) : rows[i].g # "tgt"})
 
 (* another run (other ECU name / other properties, or the same ones) logs a row *)
 AddForeign ==
@@ -90,8 +95,7 @@ Record ==
   /\ phase = "rec" /\ Len(tgt) < MaxLen
   /\ \E req \in Requests : \E rsp \in Replies(req) :
        LET e == EffAbs(req, rsp) IN
-       /\ rows' = Append(rows, [run |-> "tgt", st |-> cState, req |-> req, rsp |-> rsp, eff |-> e,
-                                ecu |-> TargetEcu, props |-> TargetProps])
+       /\ rows' = Append(rows, [g |-> "tgt", st |-> cState, req |-> req, rsp |-> rsp])
        /\ tgt' = Append(tgt, Len(rows) + 1)
        /\ cState' = IF rsp = NoReply THEN cState ELSE ClientUpd(cState, e)
   /\ UNCHANGED <<phase, sel, srv, obs, vd>>
@@ -104,9 +108,9 @@ Begin ==
   /\ UNCHANGED <<cState, rows, tgt, vd>>
 
 (* the observation handed to the contract *)
-TargetOnly == [i \in 1..Len(tgt) |-> rows[tgt[i]]]
+TargetOnly == [i \in 1..Len(tgt) |-> Full(rows[tgt[i]])]
 Reqs       == [i \in 1..Len(tgt) |-> rows[tgt[i]].req]
-Isolating  == \A i \in 1..Len(rows) : Selected(Intended, sel, rows[i]) <=> rows[i].run = "tgt"
+Isolating  == \A i \in 1..Len(rows) : Selected(Intended, sel, Full(rows[i])) <=> rows[i].g = "tgt"
 BaseObs    == IF NForeign = 0 THEN <<>> ELSE Replay(D, TargetOnly, NoSel, Reqs)
 
 XOf(o) == [steps |-> [i \in 1..Len(o) |->
@@ -122,7 +126,7 @@ Hist == [i \in 1..Len(tgt) |-> <<rows[tgt[i]].req, rows[tgt[i]].rsp>>]
 Step ==
   /\ phase = "rep"
   /\ LET k == Len(obs) + 1
-         n == ServerStep(D, rows, sel, srv, rows[tgt[k]].req)
+         n == ServerStep(D, FullRows, sel, srv, rows[tgt[k]].req)
      IN /\ obs' = Append(obs, [ss |-> srv.st, rep |-> n.rep, cur |-> n.cur])
         /\ srv' = [st |-> n.st, cur |-> n.cur]
         /\ phase' = IF k = Len(tgt) THEN "done" ELSE "rep"
